@@ -96,9 +96,6 @@ func SNPValidateFunc(opts *Options) func(*spb.Attestation, []byte) error {
 // SNPFamilyValidateFunc returns a validation function that can be used with go-sev-guest on an
 // SEV-SNP attestation report given an expected familyID.
 func SNPFamilyValidateFunc(familyID string, opts *Options) func(*spb.Attestation, []byte) error {
-	if opts.SNP == nil {
-		opts.SNP = &SNPOptions{}
-	}
 	return func(attestation *spb.Attestation, serializedEndorsement []byte) error {
 		if attestation == nil {
 			return fmt.Errorf("attestation is nil")
@@ -118,12 +115,20 @@ func SNPFamilyValidateFunc(familyID string, opts *Options) func(*spb.Attestation
 			serializedEndorsement = blob
 
 		}
-		opts.SNP.Measurement = measurement
-		// Prefer the endorsement provided by the caller.
-		if opts.Endorsement != nil {
-			return EndorsementProto(opts.Endorsement, opts)
+		// The measurement to check belongs to this call: validate through a copy of the options so
+		// that calls sharing the closure, or the caller's Options, never see each other's.
+		callOpts := *opts
+		snp := SNPOptions{}
+		if opts.SNP != nil {
+			snp = *opts.SNP
 		}
-		return Endorsement(serializedEndorsement, opts)
+		snp.Measurement = measurement
+		callOpts.SNP = &snp
+		// Prefer the endorsement provided by the caller.
+		if callOpts.Endorsement != nil {
+			return EndorsementProto(callOpts.Endorsement, &callOpts)
+		}
+		return Endorsement(serializedEndorsement, &callOpts)
 	}
 }
 
